@@ -74,6 +74,29 @@ def subscript_key(node) -> Optional[object]:
     return None
 
 
+def stored_value(st):
+    """The expression a store statement assigns: `t = e` -> e ; `t op= e` -> the BinOp `t op e` (which is what the
+    normal form turned `t = t op e` into), so that a rule reads both spellings the same way."""
+    import copy as _copy
+    if isinstance(st, ast.Assign):
+        return st.value
+    if isinstance(st, ast.AugAssign):
+        t = _copy.deepcopy(st.target)
+        for x in ast.walk(t):
+            if hasattr(x, "ctx"):
+                x.ctx = ast.Load()
+        return ast.copy_location(ast.BinOp(left=t, op=st.op, right=st.value), st)
+    return None
+
+
+def store_target(st):
+    if isinstance(st, ast.Assign) and len(st.targets) == 1:
+        return st.targets[0]
+    if isinstance(st, (ast.AugAssign, ast.AnnAssign)):
+        return st.target
+    return None
+
+
 def field_of(node, name: Optional[str] = None):
     """If node is `<base>["field"]` return (base_src, field) (optionally require base name)."""
     if isinstance(node, ast.Subscript) and isinstance(node.slice, ast.Constant) and isinstance(node.slice.value, str):
@@ -231,7 +254,14 @@ def conjuncts(test: ast.AST, polarity=True) -> List[Tuple[ast.AST, bool]]:
             for v in test.values:
                 out += conjuncts(v, False)
             return out
+    # one spelling per atomic comparison: `a is not b` True == `a is b` False (likewise in / ==)
+    if isinstance(test, ast.Compare) and len(test.ops) == 1 and type(test.ops[0]) in _POS_OPS:
+        test = ast.copy_location(ast.Compare(left=test.left, ops=[_POS_OPS[type(test.ops[0])]()], comparators=test.comparators), test)
+        polarity = not polarity
     return [(test, polarity)]
+
+
+_POS_OPS = {ast.IsNot: ast.Is, ast.NotIn: ast.In, ast.NotEq: ast.Eq}
 
 
 def guard_facts(fa: FA, nid: int) -> List[Tuple[ast.AST, bool]]:
@@ -282,6 +312,11 @@ def nfact(e: ast.AST, truth: bool = True):
 
 def nfacts(facts):
     return [nfact(e, t) for e, t in facts]
+
+
+def holds(facts, text, truth: bool = True) -> bool:
+    """`text` (a Python expression) is known to evaluate to `truth` under `facts`, in whichever spelling."""
+    return nfact(text, truth) in nfacts(facts)
 
 
 def if_arms(ifnode: ast.If, cond):
